@@ -44,6 +44,7 @@ class Ctx:
         """A violation. key (without line numbers) identifies the construct."""
         if key is None:
             key = '%s:%s' % (rule, inst)
+        key = key.replace(' ', '_')      # keys are single tokens (known_findings.txt is whitespace-separated)
         self._rec(rule, inst, 'VIOLATION', detail, where, key)
 
     def undecided(self, rule, inst, detail, where=None):
